@@ -22,7 +22,7 @@ type Node struct {
 	N        string      `json:"n,omitempty"`
 	B        bool        `json:"b,omitempty"`
 	Q        int64       `json:"q,omitempty"`
-	V        int         `json:"v,omitempty"` // syntaxerror: which unparseable source
+	V        int         `json:"v,omitempty"`   // syntaxerror: which unparseable source
 	Txt      string      `json:"txt,omitempty"` // number literal spelled explicitly (lexer-level families)
 	S        Bytes       `json:"s,omitempty"`
 	Quote    string      `json:"quote,omitempty"`
